@@ -949,7 +949,7 @@ def arms(tier):
             Arm("texts", eval_text, enum=text_campaign)]
 
 
-REQUIRED_CLASSES = ["directive:%YAML-1.2", "yamlobject-instance", "delivery:text-stream-in-pieces", "delivery:byte-stream-in-pieces", "alias-to-container", "alias-to-finished-container", "alias-to-ancestor", "alias-to-scalar", "defect:undefined-alias", "defect:cross-document-alias",
+REQUIRED_CLASSES = ["text:alias-to-container", "text:defect:undefined-alias", "text:defect:duplicate-anchor", "merge-key-beside-anchor-or-alias", "directive:%YAML-1.2", "yamlobject-instance", "delivery:text-stream-in-pieces", "delivery:byte-stream-in-pieces", "alias-to-container", "alias-to-finished-container", "alias-to-ancestor", "alias-to-scalar", "defect:undefined-alias", "defect:cross-document-alias",
                     "defect:duplicate-anchor", "defect:container-as-own-key", "level:safe", "level:full", "level:unsafe", "docs=2", "instance-as-key"]
 
 
